@@ -113,7 +113,7 @@ def writer_trace(T, M, meth, x, pyver=(3, 8)):
     for k, e, _ in merged:
         if k == "loop-begin":
             depth += 1
-            trace.append(("loop[", None, e.guards))
+            trace.append(("loop[", e.args[3].cond, e.guards))
         elif k == "loop-end":
             depth -= 1
             trace.append(("]", None, ()))
@@ -122,6 +122,18 @@ def writer_trace(T, M, meth, x, pyver=(3, 8)):
         elif k == "call" and str(e.args[0]).endswith("_Marshaller.dump"):
             trace.append(("dump", e.args[1][1] if len(e.args[1]) > 1 else None, e.guards))
     return trace, out, sp
+
+
+def data_guards(guards):
+    """guards that depend on the value being written (anything mentioning x), loop membership aside"""
+    out = []
+    for g in guards or ():
+        t = show(g)
+        if t.startswith("in-loop") or t.startswith("not(in-loop"):
+            continue
+        if "x" in [a for a in __import__("re").findall(r"[A-Za-z_][A-Za-z_0-9]*", t)]:
+            out.append(t[:80])
+    return out
 
 
 def long_reader_rule(rep, F, C, rule):
@@ -288,15 +300,33 @@ def run(rep, tier):
                     sp_ok = len(payload_term[2]) > 1 and payload_term[2][1] == "surrogatepass"
                     rep.ob("R3", W, "str:surrogatepass", sp_ok, expected="errors='surrogatepass' (marshal writes lone surrogates)", derived=[str(a) for a in payload_term[2]])
         elif tn in ("tuple", "list", "set", "frozenset"):
-            good = len(body) >= 1 and body[0][1][0] == "le32" and show(body[0][1][1]) == "len(x)"
+            good = len(body) >= 1 and body[0][1][0] == "le32" and show(body[0][1][1]) == "len(x)" and not data_guards(body[0][2])
             dumps = [t for t in trace if t[0] == "dump"]
             inloop = any(any(isinstance(g, Op) and g.op == "in-loop" for g in t[2]) for t in dumps)
-            rep.ob("R2", W, "%s:count+items" % tn, good and len(dumps) == 1 and inloop, expected="i32 len(x); dump(item) for each item", derived=[show(b[1]) for b in body[:1]] + [len(dumps)])
+            loops_ = [t for t in trace if t[0] == "loop["]
+            over_x = len(loops_) == 1 and show(loops_[0][1]) == "iter-more(x)" and not data_guards(loops_[0][2])
+            elem_ok = len(dumps) == 1 and show(dumps[0][1]).endswith(":elem") and not data_guards(dumps[0][2])
+            rep.ob("R2", W, "%s:count+items" % tn, good and len(dumps) == 1 and inloop and over_x and elem_ok, expected="i32 len(x); dump(item) for each item of x, unconditionally",
+                   derived=[show(b[1]) for b in body[:1]] + [len(dumps)] + [show(l[1]) for l in loops_] + [show(d[1]) for d in dumps[:2]] + data_guards(sum((list(t[2]) for t in trace), []))[:2],
+                   msg="a %s is not written as its length followed by every one of its items" % tn)
         elif tn == "dict":
             dumps = [t for t in trace if t[0] == "dump"]
             last = writes[-1][1] if writes else None
+            loops_ = [t for t in trace if t[0] == "loop["]
+            over_items = len(loops_) == 1 and show(loops_[0][1]) == "iter-more(call(attr(x, 'items')))" and not data_guards(loops_[0][2])
+            uncond = bool(writes) and not data_guards(writes[-1][2]) and not any(data_guards(d[2]) for d in dumps)
             good = len(dumps) == 2 and last is not None and last == ("ascii", rows["NULL"]["code"]) and "item(" in show(dumps[0][1]) and ", 0)" in show(dumps[0][1]) and ", 1)" in show(dumps[1][1])
-            rep.ob("R2", W, "dict:pairs+NULL", good, expected="dump(key); dump(value) per item; then TYPE_NULL", derived=[show(d[1]) for d in dumps] + [show(last)])
+            rep.ob("R2", W, "dict:pairs+NULL", good and over_items and uncond, expected="dump(key); dump(value) for every item of x.items(); then TYPE_NULL, unconditionally",
+                   derived=[show(d[1]) for d in dumps] + [show(last)] + [show(l[1]) for l in loops_] + data_guards(sum((list(t[2]) for t in trace), []))[:2],
+                   msg="a dict is not written as every key/value pair followed by the NULL terminator")
+        elif tn == "complex":
+            codes_ = [(t[1], t[2]) for t in body]
+            want = []
+            for part in ("real", "imag"):
+                want += ["('u8', len(call('repr', attr(x, '%s'))))" % part, "('repr', attr(x, '%s'))" % part]
+            got_ = [show(c) for c, g in codes_]
+            rep.ob("R2", W, "complex:real-then-imag", got_ == want and not any(data_guards(g) for c, g in codes_), expected=want, derived=got_[:5],
+                   msg="a complex is not written as u8 len + repr of the real part followed by u8 len + repr of the imaginary part")
         elif tn == "int":
             digits15 = any(e.kind == "mutate" and "bits(" in show(e.args[2]) and ", 0, 15)" in show(e.args[2]) for k, e in flatten_effects(sp.effects) if k == "mutate")
             rep.ob("R2", W, "int:15-bit-digits", digits15, expected="digits = x & 0x7FFF; x >>= 15", derived=[show(e.args[2]) for k, e in flatten_effects(sp.effects) if k == "mutate"][:2])
